@@ -140,6 +140,7 @@ type crashRunner struct {
 	// C10 oracle (independent of the Lean model): reference batching state
 	flushed map[string]string
 	pending [][2]string // op, key[=value]
+	gate    *timerGate
 }
 
 func (r *crashRunner) refFlush() {
@@ -192,10 +193,14 @@ func (r *crashRunner) open() {
 		}
 	}
 	r.stor.onEvent = r.onEvent
+	name := filepath.Join(r.dir, "db")
+	if r.delay == 1 {
+		r.gate = registerGate(name)
+	}
 	if r.kind == "serial" {
-		r.p, err = leveldb.VerifNewSerialDBWithStorage(r.stor, r.delay, r.batch)
+		r.p, err = leveldb.VerifNewSerialDBWithStorage(r.stor, name, r.delay, r.batch)
 	} else {
-		r.p, err = leveldb.VerifNewDBWithStorage(r.stor, r.delay, r.batch)
+		r.p, err = leveldb.VerifNewDBWithStorage(r.stor, name, r.delay, r.batch)
 	}
 	if err != nil {
 		panic(err)
@@ -203,6 +208,7 @@ func (r *crashRunner) open() {
 }
 
 func (r *crashRunner) Close() {
+	unregisterGate(filepath.Join(r.dir, "db"))
 	if r.p != nil {
 		_ = r.p.Close()
 		_ = r.stor.Storage.Close()
@@ -330,8 +336,11 @@ func (r *crashRunner) Exec(line string) string {
 			res = "err"
 		}
 	case "tick":
-		time.Sleep(time.Duration(r.delay)*time.Second + 700*time.Millisecond)
+		if r.gate == nil || !letTimerFlush(r.gate, 30*time.Second) {
+			r.add("C10", "timer-never-fired", "the BatchDelaySeconds timer did not fire within 30s")
+		}
 	case "close":
+		unregisterGate(filepath.Join(r.dir, "db"))
 		if err := r.p.Close(); err != nil {
 			res = "err"
 		}
@@ -393,7 +402,7 @@ func (crashComp) Gen(rng *rand.Rand, tier string) [][]string {
 		h := []string{fmt.Sprintf("begin crash kind=%s batch=%d delay=%d seed=%d", kind, batch, delay, rng.Intn(1<<30))}
 		n := steps
 		if withTick {
-			n = 10
+			n = 14
 		}
 		nkeys := 3 + rng.Intn(4)
 		for s := 0; s < n; s++ {
@@ -403,10 +412,17 @@ func (crashComp) Gen(rng *rand.Rand, tier string) [][]string {
 				h = append(h, fmt.Sprintf("put %s %s", k, pick(rng, "aa", "bb", fmt.Sprintf("%02x%02x", s, rng.Intn(256)), strings.Repeat("ef", 30))))
 			case x < 85:
 				h = append(h, "rm "+k)
-			case x < 93:
+			case x < 90 || (!withTick && x < 93):
 				h = append(h, "close", "reopen")
 			default:
 				if withTick {
+					// timer flush, often of a batch that holds only removals (or a put and its removal)
+					if rng.Intn(2) == 0 {
+						h = append(h, "rm "+k)
+					}
+					if rng.Intn(4) == 0 {
+						h = append(h, fmt.Sprintf("put %s cc", k), "rm "+k)
+					}
 					h = append(h, "tick")
 				}
 			}
